@@ -7,7 +7,7 @@ from pbt import gens, oracles as o
 from pbt.core import Outcome, Raised, SubCheck, bad, import_dsw, lib_call
 
 PROPERTY = "C13"
-RULE = ("All vertices for k = 1..7 (21,844 vertices; one case = one vertex) enumerated; vertices for k = 8..12 drawn. "
+RULE = ("All vertices for k = 1..7 (21,844 vertices; one case = one vertex) enumerated; vertices for k = 8..40 drawn. "
         "Oracle: string manipulation on k-mers (drop first/append, drop last/prepend). For every produced graph "
         "(complete accessor, connect_valid_graph, connect_coding_graph, latter_map_to_accessor, "
         "adjacency_matrix_to_accessor, remove_nasty_arc on drawn inputs) every entry must be -1 or the j-th string "
@@ -69,7 +69,7 @@ def evaluate_vertex(case):
 
 
 def big_vertices(tier):
-    return st.integers(8, 12).flatmap(lambda k: st.one_of(
+    return st.one_of(st.integers(8, 12), st.integers(8, 12), st.integers(13, 40)).flatmap(lambda k: st.one_of(
         st.integers(0, 4 ** k - 1), st.sampled_from([0, 1, 4 ** k - 1, 4 ** k - 4, 4 ** (k - 1), 4 ** (k - 1) - 1])
     ).map(lambda v: {"k": k, "v": v}))
 
@@ -220,10 +220,10 @@ SUBCHECKS = [
              rule=RULE),
 ]
 
-TECHNIQUE = ("complete enumeration of all vertices for k <= 7 plus property-based testing (Hypothesis) for k = 8..12 "
+TECHNIQUE = ("complete enumeration of all vertices for k <= 7 plus property-based testing (Hypothesis) for k = 8..40 "
              "and for every graph-producing function, against a string-manipulation oracle on k-mers")
 LEVEL_TEXT = ("Exhaustive for observed lengths 1..7 (every vertex: index/k-mer conversion both ways and both types, "
-              "successor and predecessor lists, converse relation), sampled for 8..12; every accessor produced by "
+              "successor and predecessor lists, converse relation), sampled for 8..40; every accessor produced by "
               "the six graph-building/converting functions on generated inputs is checked entry by entry against "
               "string shift-append.")
 LEVEL_NOTE = "Trusted: base-4 string rendering in pbt/oracles.py (kmer/index), checked against each other by the run."
